@@ -995,7 +995,9 @@ robsd() {
 # Invoke robsd hook.
 robsd_hook() {
 	# Ignore non-zero exit.
-	"${ROBSDHOOK}" -m "${_MODE}" -V ${ROBSDCONF:+"-C${ROBSDCONF}"} "$@" || :
+	# The hook must not inherit stdin: inside robsd() that is the pipe the
+	# main loop reads the remaining steps from.
+	"${ROBSDHOOK}" -m "${_MODE}" -V ${ROBSDCONF:+"-C${ROBSDCONF}"} "$@" </dev/null || :
 }
 
 # setmode mode
